@@ -195,6 +195,7 @@ def check(ctx):
         ctx.analysed(c)
 
         def rc(c=c):
+            PR = sym(c.params[0].name)
             s, ex = summarise(p, c)
             ind = fld(s.this, 'indices_')
             if not (isinstance(ind, tuple) and ind[0] == 'vcomp' and ind[3] == ZERO and ind[4] == T.size(PR)
@@ -344,8 +345,8 @@ def check(ctx):
                 return
             args = calls[0]['args']
             w = ('vcall', 'hep::mc_point::weight', fld(th, 'point_'))
-            want = [sym(q.name) for q in a.params[:-1]] + [mul(sym('value'), w)]
-            if args == want:
+            want = [sym(q.name) for q in a.params[:-1]] + [mul(sym(a.params[-1].name), w)]
+            if len(args) == len(want) and all(T.same(x, y) for x, y in zip(args, want)):
                 ctx.holds('R4.projector', fsite(a), 'projector forwards (index, coordinates, value * '
                           'point.weight()) of the point the integrand was called with')
             else:
